@@ -166,6 +166,9 @@ def gen_func_code(f, lab):
         store = ([("push", f["const"])] if "const" in f else list(src)) + [("push", s), "SSTORE"]
         cmp_ = {"gt": [("push", K), "LT"], "lt": [("push", K), "GT"], "eq": [("push", K), "EQ"]}[f.get("cmp", "gt")]
         arm = ["STOP"] if not f.get("late") else store + ["STOP"]
+        if "when" in f:
+            #   "when": [t, a] -> require(slot[t] == a) first (the function is enabled by an earlier transaction)
+            it += require([("push", f["when"][0]), "SLOAD", ("push", f["when"][1]), "EQ"])
         it += ([] if f.get("late") else store) + src + cmp_ + [("ref", ok), "JUMPI"] + arm + [("label", ok)] + arm
     elif k == "setv_rel":
         # payable: slot = arg; if (msg.value > K) {} else {}; require(arg == msg.value)
